@@ -5,7 +5,7 @@
      (defn brk [a] (for lp: [(def i 0) (< i 5) (set i (+ i 1))]
                       (let [k 1] (newScope (cond (== i a) (break lp:) (== i 1) (continue lp:) 0)))) a)
      (defn sq [x & r] ^(1 ~x ~@r [2 ~x]))
-     (func e6 [] [a:int64])              -- known finding func-decl-returns (code_e5): rejected *)
+     code_e5: what FuncBuilder emitted for (func e6 [] [a:int64]) before fix 78df25e (two values at Return): rejected *)
 From Coq Require Import List ZArith.
 Require Import ZV.Model.Bytecode ZV.Model.Verifier.
 Import ListNotations.
@@ -109,3 +109,6 @@ Definition annot_sq : annot :=
 
 Definition code_e5 : list instr := [IAddFuncScope; IPush; IPush; IRemoveScope; IReturn].
 Definition annot_e5 : annot := [[([], 0)]; [([], 1)]; [([AVal], 1)]; [([AVal; AVal], 1)]; [([AVal; AVal], 0)]].
+(* (defn sq0 [] (set %y 10)) on the current tree: AssignInstr pops rhs and lhs and pushes the value *)
+Definition code_sq0 : list instr := [IAddFuncScope; IPush; IPush; IAssign; IRemoveScope; IReturn].
+Definition annot_sq0 : annot := [[([], 0)]; [([], 1)]; [([AVal], 1)]; [([AVal; AVal], 1)]; [([AVal], 1)]; [([AVal], 0)]].
